@@ -318,4 +318,25 @@ fn rand_unit_sphere_total() {
 // (25 min) and again as a combined disk+ball harness (20 min); 17 rejections were not attempted further. The clause stays undecided
 // (DESIGN.md C19 [U], L3): the second-round seed C19b (retry bound of 16, then the candidate is returned unchecked) is therefore missed.
 
+// @ob props=C19 tier=quick kind=P cfg=core-std timeout=600
+// @fn Distrib::samples ; <Iter<D,R> as Iterator>::next
+// @clause the samples() iterator never ends and yields exactly the sequence of repeated sample() calls on the same generator (equal seeds, equal sequences), leaving it in the same state
+#[cfg(not(verif_skip_rand_samples_iterator))]
+#[kani::proof]
+#[kani::unwind(4)]
+fn rand_samples_iterator() {
+    let g0 = any_rng();
+    // the harness-defined component type: samples() is generic in the distribution, so one cheap instantiation decides it
+    let d = Uniform(Tok(kani::any())..Tok(kani::any()));
+    let mut h = g0;
+    let (r0, r1) = (d.sample(&mut h), d.sample(&mut h));
+    let mut g = g0;
+    let (a, b) = {
+        let mut it = d.samples(&mut g);
+        (it.next(), it.next())
+    };
+    kani::cover!(true);
+    assert!(a == Some(r0) && b == Some(r1) && g.0 == h.0);
+}
+
 include!("gen/dispatch_rand.rs");
